@@ -58,6 +58,13 @@ def gen(rng, mode=None):
         from ..gen import big_hypergraph
 
         return big_hypergraph(rng, weighted=rng.random() < 0.4, sizes=(2, 2, 3, 3, 4, 5), n=rng.randint(25, 45), m=rng.randint(60, 140))
+    if mode == "wide":  # beyond 64 nodes (isolated ones included), sizes interleaved, real-valued weights
+        from ..gen import big_hypergraph
+
+        h = big_hypergraph(rng, weighted=True, sizes=(2, 3, 4, 2, 3), n=rng.randint(66, 90), m=rng.randint(120, 180), hub=False)
+        for e in list(h.get_edges())[::3]:
+            h.set_weight(e, rng.choice([0.4, 1.5, 2.75, 3, 0.25]))
+        return h
     if mode == "single":
         labels = rng.sample(list(history.UNIVERSES[rng.choice(["small", "gaps", "str"])]), rng.randint(3, 6))
         h = hgx.Hypergraph([tuple(sorted(labels[: rng.randint(2, len(labels))]))])
@@ -73,11 +80,12 @@ def gen(rng, mode=None):
     rng.shuffle(labels)
     labels = labels[: rng.randint(4, 10)]
     weighted = rng.random() < 0.4
+    real_w = rng.random() < 0.5  # real-valued weights (the model is defined for any non-negative A_e)
     es = {}
     for _ in range(rng.randint(2, 14)):
         s = min(rng.choice([2, 2, 2, 3, 3, 4, 5]), len(labels))
         e = tuple(sorted(rng.sample(labels[: max(s, len(labels) - rng.randint(0, 2))], s)))
-        es[e] = rng.randint(1, 4) if weighted else 1
+        es[e] = (rng.choice([0.4, 1.5, 2.75, 0.25, 3, 1]) if real_w else rng.randint(1, 4)) if weighted else 1
     h = hgx.Hypergraph(list(es), weighted=weighted, weights=list(es.values()) if weighted else None)
     for n in labels:
         if rng.random() < 0.5:
@@ -100,10 +108,15 @@ FORCED = {  # witness inputs of the open findings, re-confirmed on every run thr
 
 
 def run_case(ctx, rng, idx):
-    mode = "big" if idx == 7 or (ctx.tier == "thorough" and idx % 300 == 11) else "single" if idx % 25 == 9 else None
+    mode = ("big" if idx == 7 or (ctx.tier == "thorough" and idx % 300 == 11) else
+            "wide" if idx == 8 or (ctx.tier == "thorough" and idx % 300 == 13) else "single" if idx % 25 == 9 else None)
     if mode:
         ctx.event(mode + "-input")
     h = gen(rng, mode)
+    if mode == "wide":  # fixed configuration: untruncated, unnormalised (every clause of the statement applies), both baselines
+        for baseline in (True, False):
+            evaluate(ctx, rng, idx, h, 0, force=dict(K=2, no_trunc=True, normalizeU=False, baseline=baseline, max_iter=10, n_realizations=1))
+        return
     evaluate(ctx, rng, idx, h, 0)
     if idx not in FORCED and idx % 3 == 0:
         # the same Hypergraph object fitted again after an in-place edit that keeps node and hyperedge counts
@@ -123,7 +136,7 @@ def run_case(ctx, rng, idx):
                 break
 
 
-def evaluate(ctx, rng, idx, h, phase):
+def evaluate(ctx, rng, idx, h, phase, force=None):
     from hypergraphx.communities.hypergraph_mt import model as mt
     from hypergraphx.communities.hy_sc.model import HySC
 
@@ -146,6 +159,9 @@ def evaluate(ctx, rng, idx, h, phase):
         cfg.update(min_value_par=0.0, max_value_par=1e300)
     normalizeU = rng.random() < 0.4
     baseline = rng.random() < 0.6
+    if force:
+        K, normalizeU, baseline, no_trunc = force["K"], force["normalizeU"], force["baseline"], force["no_trunc"]
+        cfg.update(max_iter=force["max_iter"], n_realizations=force["n_realizations"], min_value_par=0.0, max_value_par=1e300)
     if idx in FORCED:
         import hypergraphx as hgx
 
